@@ -157,6 +157,10 @@ func (c *Client) Request(ctx context.Context, request []byte) (response []byte, 
 func (c *Client) Transport(ctx context.Context, request []byte) (response []byte, err error) {
 	clientContext := GetClientContext(ctx)
 	url := clientContext.URL
+	if url == nil {
+		// a client without a (parsable) server address
+		return nil, UnsupportedProtocolError{}
+	}
 	if name, ok := protocols.Load(url.Scheme); ok {
 		var cancel context.CancelFunc
 		if clientContext.Timeout > 0 {
